@@ -123,7 +123,26 @@ def e1_languages():
     L.empty('STRING: prefix-free', rx.intersect(
         impl['STRING'], rx.concat(impl['STRING'], rx.plus(rx.allchar()))),
         replay_fn='replay_prefix')
-    # a quoted string cannot be continued by name characters into one token
+    # maximal munch as language facts: the name classes are closed under
+    # appending a name character (so the greedy match is the maximal run and
+    # a mutant that bounds the repetition is visible at any length)
+    namechar = rx.none_of(NAME_EXCL)
+    digit = rx.char_range(0x30, 0x39)
+    L.empty('SYMBOL + name character is a SYMBOL (extension-closed)',
+            rx.difference(rx.concat(impl['SYMBOL'], namechar),
+                          impl['SYMBOL']), replay_fn='replay_ext')
+    L.empty('ROLE + name character is a ROLE (extension-closed)',
+            rx.difference(rx.concat(impl['ROLE'], namechar), impl['ROLE']),
+            replay_fn='replay_ext')
+    L.empty('ALIGNMENT + digit is an ALIGNMENT', rx.difference(
+        rx.concat(impl['ALIGNMENT'], digit), impl['ALIGNMENT']),
+        replay_fn='replay_ext')
+    L.empty('ALIGNMENT + ",digit" is an ALIGNMENT', rx.difference(
+        rx.concat(impl['ALIGNMENT'], rx.lit(','), digit), impl['ALIGNMENT']),
+        replay_fn='replay_ext')
+    L.empty('COMMENT + any non-LF character is a COMMENT', rx.difference(
+        rx.concat(impl['COMMENT'], rx.none_of(['\n'])), impl['COMMENT']),
+        replay_fn='replay_ext')
     for name in impl:
         L.empty(f'{name}: never matches the empty string',
                 rx.intersect(impl[name], rx.lit('')),
@@ -235,6 +254,14 @@ def replay_class(s: str, lemma: str):
             any(c in s for c in '\n\r\v\f'):
         return
     require(impl == ref, f'{lemma}: implemented={impl} documented={ref}', s)
+
+
+def replay_ext(s: str, lemma: str):
+    name = lemma.split(' ')[0]
+    require(_impl_fullmatch(name, s) or not _impl_fullmatch(name, s[:-1])
+            if not lemma.startswith('ALIGNMENT + ",')
+            else (_impl_fullmatch(name, s)
+                  or not _impl_fullmatch(name, s[:-2])), lemma, s)
 
 
 def replay_prefix(s: str, lemma: str):
